@@ -327,6 +327,7 @@ func AnalyzeLess(fn *ssa.Function) *CmpResult {
 	}
 	fields := map[string]bool{}
 	keyLin := map[string]map[string]int64{}
+	general := false
 	for _, b := range fn.Blocks {
 		for _, ins := range b.Instrs {
 			switch x := ins.(type) {
@@ -341,10 +342,30 @@ func AnalyzeLess(fn *ssa.Function) *CmpResult {
 					}
 				}
 			case *ssa.Call:
-				// any call other than math.Abs in the float-equality idiom is unsupported
+				// any call other than math.Abs in the float-equality idiom takes the comparator to the general evaluator
+				// (cmp3.go), which follows calls and three-way results
 				if f := x.Call.StaticCallee(); f == nil || f.String() != "math.Abs" {
-					res.Undecided = "comparator calls " + x.Call.Value.String()
+					if _, isBuiltin := x.Call.Value.(*ssa.Builtin); !isBuiltin {
+						general = true
+					}
 				}
+			}
+		}
+	}
+	eval := func(rel map[string]tri) (bool, error) { return evalLess(fn, rel) }
+	if general {
+		keys, err := discoverKeys3(fn)
+		if err != nil {
+			res.Undecided = err.Error()
+		} else {
+			fields = map[string]bool{}
+			keyLin = map[string]map[string]int64{}
+			for k, l := range keys {
+				fields[k] = true
+				keyLin[k] = l
+			}
+			eval = func(rel map[string]tri) (bool, error) {
+				return evalLess3(fn, rel, map[string]map[string]int64{})
 			}
 		}
 	}
@@ -423,7 +444,7 @@ func AnalyzeLess(fn *ssa.Function) *CmpResult {
 			}
 			x /= 3
 		}
-		ij, err := evalLess(fn, rel)
+		ij, err := eval(rel)
 		if err != nil {
 			res.Undecided = err.Error()
 			return res
@@ -432,7 +453,7 @@ func AnalyzeLess(fn *ssa.Function) *CmpResult {
 		for f, r := range rel {
 			inv[f] = -r
 		}
-		ji, err := evalLess(fn, inv)
+		ji, err := eval(inv)
 		if err != nil {
 			res.Undecided = err.Error()
 			return res
